@@ -150,8 +150,16 @@ def check_curves(connection, ds, step):
     avg = t['average_recession_time']
     if avg:
         span = ds['dt'] * len(ds['lattice'])
-        diffs = [Fraction(v) - events.truth_time(ds['lattice'], z, ds['dt'])
-                 for z, v in avg]
+        try:
+            diffs = [Fraction(v) - events.truth_time(ds['lattice'], z,
+                                                     ds['dt'])
+                     for z, v in avg]
+        except ValueError as exc:
+            # the curve has points at levels the record never reached
+            return [('recession-curve-not-truth',
+                     'average_recession_time has a point outside the range '
+                     'of the planted curve: %s (levels %r .. %r)'
+                     % (exc, avg[0][0], avg[-1][0]))], info
         spread = max(diffs) - min(diffs)
         if spread > span * 1e-7:
             worst = max(range(len(avg)), key=lambda i: abs(
